@@ -157,7 +157,14 @@ func TestVerifBoundedRequestKeys(t *testing.T) {
 					req.Requests = []*pb.Request{getReq, scanReq}
 					resp.Responses = []*pb.Response{getResp, scanResp}
 				}
+				// a lock the scan ran into: on every key position; it may be reported only if the
+				// locked key belongs to the region
+				lockKey := keys2[1+cases%(len(keys2)-1)]
+				scanResp.GetScan().Error = &pb.KeyError{Locked: &pb.Locked{Key: lockKey, PrimaryLock: lockKey, LockVersion: 7}}
 				trimScanResponse(meta, req, resp)
+				if gotErr := scanResp.GetScan().GetError(); (gotErr != nil) != verifOwns(meta, lockKey) {
+					t.Fatalf("trimScanResponse on region [%q,%q): a scan that met a lock on %q reports error=%v; a lock is this region's business exactly when the key is inside it", meta.StartKey, meta.EndKey, lockKey, gotErr != nil)
+				}
 				var wantKeys [][]byte
 				for _, kv := range kvs {
 					if kv != nil && verifOwns(meta, kv.Key) {
